@@ -578,8 +578,28 @@ class _Idioms(ast.NodeTransformer):
                 n.right = ast.Constant(-r.value)
         return n
 
+    def visit_Subscript(self, n):
+        self.generic_visit(n)
+        # list(X)[0] -> next(iter(X))   (first element in iteration order)
+        if isinstance(n.ctx, ast.Load) and isinstance(n.slice, ast.Constant) and n.slice.value == 0 and isinstance(n.value, ast.Call) \
+                and isinstance(n.value.func, ast.Name) and n.value.func.id in ("list", "tuple") and len(n.value.args) == 1 and not n.value.keywords:
+            return ast.copy_location(ast.Call(func=ast.Name(id="next", ctx=ast.Load()), args=[
+                ast.Call(func=ast.Name(id="iter", ctx=ast.Load()), args=[n.value.args[0]], keywords=[])], keywords=[]), n)
+        return n
+
     def visit_Call(self, n):
         self.generic_visit(n)
+        # networkx: G.order() == G.number_of_nodes() == len(G)
+        if isinstance(n.func, ast.Attribute) and n.func.attr in ("order", "number_of_nodes") and not n.args and not n.keywords:
+            return ast.copy_location(ast.Call(func=ast.Name(id="len", ctx=ast.Load()), args=[n.func.value], keywords=[]), n)
+        # map(f, X) -> (f(v) for v in X)    (both lazy, same order)
+        if isinstance(n.func, ast.Name) and n.func.id == "map" and len(n.args) == 2 and not n.keywords \
+                and isinstance(n.args[0], (ast.Name, ast.Attribute)):
+            _cv_counter[0] += 1
+            v = "__m%d" % _cv_counter[0]
+            return ast.copy_location(ast.GeneratorExp(
+                elt=ast.Call(func=n.args[0], args=[ast.Name(id=v, ctx=ast.Load())], keywords=[]),
+                generators=[ast.comprehension(target=ast.Name(id=v, ctx=ast.Store()), iter=n.args[1], ifs=[], is_async=0)]), n)
         # sorted(list(X)) / sorted(tuple(X)) -> sorted(X); likewise set, frozenset, sum, min, max, len over list(X)/tuple(X)
         if isinstance(n.func, ast.Name) and n.func.id in ("sorted", "set", "frozenset", "sum", "min", "max", "list", "tuple") \
                 and len(n.args) == 1 and not n.keywords and isinstance(n.args[0], ast.Call) and isinstance(n.args[0].func, ast.Name) \
@@ -722,7 +742,7 @@ def control_flow(fn):
     """C4 on every function scope below fn."""
     for f in [n for n in ast.walk(fn) if isinstance(n, ast.FunctionDef)]:
         for _ in range(8):
-            a = _tail_into_breaks(f)
+            a = _tail_into_breaks(f) | _continue_guards(f)
             b = _orient(f)
             _flatten_else(f)
             c = _orient_exits(f)
@@ -730,6 +750,40 @@ def control_flow(fn):
             if not (a or b or c or d):
                 break
         _guard_to_nested(f)
+
+
+def _continue_guards(scope):
+    """In a block in tail position of a loop body (the body itself, or an arm of an `if` that ends such a block):
+    `if c: A; continue` followed by rest  ->  `if c: A else: rest`; a trailing `continue` is dropped."""
+    changed = False
+
+    def process(block):
+        nonlocal changed
+        again = True
+        while again:
+            again = False
+            if len(block) > 1 and isinstance(block[-1], ast.Continue):
+                block.pop()
+                changed = again = True
+                continue
+            for i, st in enumerate(block):
+                if isinstance(st, ast.If) and not st.orelse and st.body and isinstance(st.body[-1], ast.Continue) and block[i + 1:]:
+                    rest = block[i + 1:]
+                    head = st.body[:-1]
+                    if head:
+                        new = ast.copy_location(ast.If(test=st.test, body=head, orelse=rest), st)
+                    else:
+                        new = ast.copy_location(ast.If(test=negate(st.test), body=rest, orelse=[]), st)
+                    block[i:] = [new]
+                    changed = again = True
+                    break
+        if block and isinstance(block[-1], ast.If):
+            process(block[-1].body)
+            if block[-1].orelse:
+                process(block[-1].orelse)
+    for loop in [n for n in ast.walk(scope) if isinstance(n, (ast.For, ast.While))]:
+        process(loop.body)
+    return changed
 
 
 def _positive(test):
@@ -1068,6 +1122,26 @@ def _mutations(node):
 def _invalidates(muts, e, x):
     """May the effects `muts` change what expression e (bound to name x) evaluates to, or rebind x?"""
     pe = _path(e)
+    if pe is None and not isinstance(e, ast.Name):
+        # a compound expression changes only if one of the maximal name/attribute/subscript paths it reads does
+        subs = []
+
+        def collect(n):
+            if isinstance(n, (ast.Name, ast.Attribute, ast.Subscript)) and _path(n) is not None:
+                subs.append(n)
+                if isinstance(n, ast.Subscript) and not isinstance(n.slice, (ast.Name, ast.Constant)):
+                    collect(n.slice)
+                return
+            if isinstance(n, (ast.Lambda, ast.ListComp, ast.SetComp, ast.DictComp, ast.GeneratorExp)):
+                subs.append(None)
+                return
+            for c in ast.iter_child_nodes(n):
+                collect(c)
+        collect(e)
+        if None not in subs and subs:
+            if any(kind == "bind" and pay == x for kind, pay in muts):
+                return True
+            return any(_invalidates(muts, sub, "\0") for sub in subs)
     names = _names(e) | {x}
     for kind, pay in muts:
         if kind == "bind":
@@ -1373,37 +1447,52 @@ def propagate(fn):
                     if sum(1 for n in _scope_nodes(scope) if isinstance(n, ast.Name) and n.id == x and isinstance(n.ctx, ast.Load)) != 1:
                         continue
                 m = {x: e}
-                for s in body[i + 1:]:
-                    uses = any(isinstance(n, ast.Name) and n.id == x and isinstance(n.ctx, ast.Load) for n in ast.walk(s))
-                    hit = _invalidates(_mutations(s), e, x)
-                    if isinstance(s, (ast.If, ast.For, ast.While, ast.Try, ast.With, ast.FunctionDef)):
-                        if hit:
-                            # the test / iterable of the compound statement is evaluated first
-                            if isinstance(s, ast.If) and uses:
+
+                def push(stmts):
+                    """substitute into a statement sequence; False when the definition is dead (x or an input changed)"""
+                    nonlocal changed_any
+                    for s in stmts:
+                        uses = any(isinstance(n, ast.Name) and n.id == x and isinstance(n.ctx, ast.Load) for n in ast.walk(s))
+                        if isinstance(s, ast.If):
+                            if uses:
                                 before = ast.dump(s.test)
                                 s.test = _Subst(m).visit(s.test)
                                 changed_any |= before != ast.dump(s.test)
-                            elif isinstance(s, ast.For) and uses:
-                                before = ast.dump(s.iter)
-                                s.iter = _Subst(m).visit(s.iter)
-                                changed_any |= before != ast.dump(s.iter)
-                            break
-                        if uses:
-                            _Subst(m).visit(s)
-                            changed_any = True
-                    else:
-                        if uses:
-                            before = ast.dump(s)
-                            _subst_in_simple(s, m)
-                            changed_any |= before != ast.dump(s)
-                        # common subexpression: a later definition with the same right-hand side becomes a copy of x
-                        if (not uses) and isinstance(s, ast.Assign) and len(s.targets) == 1 and isinstance(s.targets[0], ast.Name) \
-                                and s.targets[0].id != x and not isinstance(e, (ast.Name, ast.Constant)) and ast.dump(s.value) == ast.dump(e) \
-                                and (_immutable_result(e) or (shareable and _value_only(scope, s.targets[0].id))):
-                            s.value = ast.Name(id=x, ctx=ast.Load())
-                            changed_any = True
-                        if hit:
-                            break
+                            if _invalidates(_mutations(s.test), e, x):
+                                return False
+                            a_ = push(s.body)
+                            b_ = push(s.orelse)
+                            if not (a_ and b_):
+                                return False
+                            continue
+                        hit = _invalidates(_mutations(s), e, x)
+                        if isinstance(s, (ast.For, ast.While, ast.Try, ast.With, ast.FunctionDef)):
+                            if hit:
+                                if isinstance(s, ast.For) and uses:
+                                    before = ast.dump(s.iter)
+                                    s.iter = _Subst(m).visit(s.iter)
+                                    changed_any |= before != ast.dump(s.iter)
+                                return False
+                            if uses:
+                                _Subst(m).visit(s)
+                                changed_any = True
+                        else:
+                            if uses:
+                                before = ast.dump(s)
+                                _subst_in_simple(s, m)
+                                changed_any |= before != ast.dump(s)
+                            # common subexpression: a later definition with the same right-hand side becomes a copy of x
+                            if (not uses) and isinstance(s, ast.Assign) and len(s.targets) == 1 and isinstance(s.targets[0], ast.Name) \
+                                    and s.targets[0].id != x and not isinstance(e, (ast.Name, ast.Constant)) and ast.dump(s.value) == ast.dump(e) \
+                                    and (_immutable_result(e) or (shareable and _value_only(scope, s.targets[0].id))):
+                                s.value = ast.Name(id=x, ctx=ast.Load())
+                                changed_any = True
+                            if hit:
+                                return False
+                            if isinstance(s, (ast.Return, ast.Raise, ast.Break, ast.Continue)):
+                                return True
+                    return True
+                push(body[i + 1:])
         # dead pure stores
         loads = {}
         for n in _scope_nodes(scope):
@@ -1607,6 +1696,9 @@ def sort_commuting(fn):
 _INERT, _EFFECT, _FOUND, _BLOCKED = "inert", "effect", "found", "blocked"
 
 
+_REACH_MUTS = [None]       # effects of the definition being moved (set by forward_single_use)
+
+
 def _reach(node, x):
     """Walk `node` in evaluation order looking for the single load of x.  FOUND: x is reached and everything evaluated
     before it only passes references around (names, constants, displays of those, the lookup of a method on a name);
@@ -1617,6 +1709,9 @@ def _reach(node, x):
         return _INERT
     if x not in _names(node):
         if isinstance(node, (ast.Tuple, ast.List)) and all(_reach(e, x) == _INERT for e in node.elts):
+            return _INERT
+        # a pure read that the moved definition cannot change (same no-alias reading of distinct names as `commute`)
+        if _REACH_MUTS[0] is not None and is_pure(node) and not _invalidates(_REACH_MUTS[0], node, "\0"):
             return _INERT
         return _EFFECT
     if isinstance(node, ast.Call):
@@ -1714,12 +1809,16 @@ def forward_single_use(fn):
                             and x not in _names(st.value) and not isinstance(st.value, (ast.Lambda, ast.Yield, ast.YieldFrom, ast.Await)):
                         exprs = _first_evaluated(nx)
                         hit = None
-                        for e in exprs:
-                            r = _reach(e, x)
-                            if r == _FOUND:
-                                hit = e
-                            if r != _INERT:
-                                break
+                        _REACH_MUTS[0] = _mutations(st) if _impure(st) else []
+                        try:
+                            for e in exprs:
+                                r = _reach(e, x)
+                                if r == _FOUND:
+                                    hit = e
+                                if r != _INERT:
+                                    break
+                        finally:
+                            _REACH_MUTS[0] = None
                         if hit is not None:
                             _subst_in_first(nx, {x: st.value})
                             del body[i]
@@ -1804,6 +1903,64 @@ def expand_comprehensions(fn):
                 new.append(st)
         setattr(owner, fld, new)
     ast.fix_missing_locations(fn)
+
+
+def networkx_bulk_calls(fn):
+    """networkx: `H.add_edges_from(it)` is `for e in it: H.add_edge(*e)`, `H.add_nodes_from(it)` is `for n in it: H.add_node(n)`
+    (no attribute keywords), and iterating `G.nodes()` is iterating `G`.  A `for` over a generator expression is the nested
+    loops it abbreviates (a generator is consumed lazily, so the interleaving is the same)."""
+    changed = False
+    for owner, fld in _blocks_of(fn):
+        body = getattr(owner, fld)
+        new = []
+        for st in body:
+            c = st.value if isinstance(st, ast.Expr) and isinstance(st.value, ast.Call) else None
+            if c is not None and isinstance(c.func, ast.Attribute) and c.func.attr in ("add_edges_from", "add_nodes_from") \
+                    and isinstance(c.func.value, ast.Name) and len(c.args) == 1 and not c.keywords:
+                _cx_counter[0] += 1
+                v = "__b%d" % _cx_counter[0]
+                arg = ast.Starred(value=ast.Name(id=v, ctx=ast.Load()), ctx=ast.Load()) if c.func.attr == "add_edges_from" \
+                    else ast.Name(id=v, ctx=ast.Load())
+                call = ast.Call(func=ast.Attribute(value=c.func.value, attr="add_edge" if c.func.attr == "add_edges_from" else "add_node",
+                                                   ctx=ast.Load()), args=[arg], keywords=[])
+                new.append(ast.copy_location(ast.For(target=ast.Name(id=v, ctx=ast.Store()), iter=c.args[0],
+                                                     body=[ast.Expr(value=call)], orelse=[], type_comment=None), st))
+                changed = True
+            else:
+                new.append(st)
+        setattr(owner, fld, new)
+    for loop in [n for n in ast.walk(fn) if isinstance(n, ast.For)]:
+        it = loop.iter
+        if isinstance(it, ast.Call) and isinstance(it.func, ast.Attribute) and it.func.attr == "nodes" and not it.args and not it.keywords \
+                and isinstance(it.func.value, ast.Name):
+            loop.iter = it.func.value
+            changed = True
+        if isinstance(loop.iter, ast.GeneratorExp) and not loop.orelse and not any(g.is_async for g in loop.iter.generators):
+            g = copy.deepcopy(loop.iter)
+            ren = {}
+            for gen in g.generators:
+                for t in ast.walk(gen.target):
+                    if isinstance(t, ast.Name) and t.id not in ren:
+                        _cx_counter[0] += 1
+                        ren[t.id] = "%s__g%d" % (t.id, _cx_counter[0])
+            skip = {id(n) for n in ast.walk(g.generators[0].iter)}
+            for n in ast.walk(g):
+                if isinstance(n, ast.Name) and n.id in ren and id(n) not in skip:
+                    n.id = ren[n.id]
+            inner = [ast.Assign(targets=[loop.target], value=g.elt)] + loop.body
+            for gen in reversed(g.generators):
+                for c in reversed(gen.ifs):
+                    inner = [ast.If(test=c, body=inner, orelse=[])]
+                for t in ast.walk(gen.target):
+                    if isinstance(t, ast.Name):
+                        t.ctx = ast.Store()
+                inner = [ast.For(target=gen.target, iter=gen.iter, body=inner, orelse=[], type_comment=None)]
+            outer = inner[0]
+            loop.target, loop.iter, loop.body = outer.target, outer.iter, outer.body
+            changed = True
+    if changed:
+        ast.fix_missing_locations(fn)
+    return changed
 
 
 def mapping_loops(fn):
@@ -2046,6 +2203,13 @@ def expand_star_tuples(fn):
                     body.remove(st)
                     if not body:
                         body.append(ast.Pass())
+    class TC(ast.NodeTransformer):
+        def visit_BinOp(self, n):
+            self.generic_visit(n)
+            if isinstance(n.op, ast.Add) and isinstance(n.left, ast.Tuple) and isinstance(n.right, ast.Tuple):
+                return ast.copy_location(ast.Tuple(elts=list(n.left.elts) + list(n.right.elts), ctx=ast.Load()), n)
+            return n
+    TC().visit(fn)
     for n in ast.walk(fn):
         if isinstance(n, ast.Call) and any(isinstance(a, ast.Starred) and isinstance(a.value, (ast.Tuple, ast.List)) for a in n.args):
             new = []
@@ -2077,10 +2241,87 @@ def local_helpers(fn):
     return out
 
 
-def canonical(fn, helpers, sigs=None):
+class _Dunder(ast.NodeTransformer):
+    """Inside a method of a class whose __len__ / __contains__ is a single `return <expr>` (and that has no __bool__):
+    len(self), `x in self` and the truth value of self are written out."""
+
+    def __init__(self, cls):
+        self.len = self.contains = None
+        has_bool = False
+        for b in cls.body:
+            if isinstance(b, ast.FunctionDef):
+                bb = copy.deepcopy(b)
+                strip(bb)
+                if b.name == "__bool__":
+                    has_bool = True
+                if len(bb.body) == 1 and isinstance(bb.body[0], ast.Return) and bb.body[0].value is not None and not b.decorator_list:
+                    ps = [a.arg for a in b.args.args]
+                    if b.name == "__len__" and len(ps) == 1:
+                        self.len = (ps[0], bb.body[0].value)
+                    if b.name == "__contains__" and len(ps) == 2 and is_pure(bb.body[0].value):
+                        self.contains = (ps[0], ps[1], bb.body[0].value)
+        if has_bool:
+            self.len = None
+        self.truth = self.len is not None
+
+    def _len(self):
+        return _Subst({self.len[0]: ast.Name(id="self", ctx=ast.Load())}).visit(copy.deepcopy(self.len[1]))
+
+    def _truth(self, e):
+        if self.truth and isinstance(e, ast.Name) and e.id == "self":
+            return ast.Compare(left=self._len(), ops=[ast.Gt()], comparators=[ast.Constant(0)])
+        return e
+
+    def visit_Call(self, n):
+        self.generic_visit(n)
+        if self.len and isinstance(n.func, ast.Name) and n.func.id == "len" and len(n.args) == 1 and isinstance(n.args[0], ast.Name) \
+                and n.args[0].id == "self":
+            return self._len()
+        if self.len and isinstance(n.func, ast.Attribute) and n.func.attr == "__len__" and isinstance(n.func.value, ast.Name) \
+                and n.func.value.id == "self" and not n.args:
+            return self._len()
+        if self.contains and isinstance(n.func, ast.Attribute) and n.func.attr == "__contains__" and isinstance(n.func.value, ast.Name) \
+                and n.func.value.id == "self" and len(n.args) == 1 and is_pure(n.args[0]):
+            return _Subst({self.contains[0]: ast.Name(id="self", ctx=ast.Load()), self.contains[1]: n.args[0]}).visit(copy.deepcopy(self.contains[2]))
+        return n
+
+    def visit_Compare(self, n):
+        self.generic_visit(n)
+        if self.contains and len(n.ops) == 1 and isinstance(n.ops[0], (ast.In, ast.NotIn)) and isinstance(n.comparators[0], ast.Name) \
+                and n.comparators[0].id == "self" and is_pure(n.left):
+            e = _Subst({self.contains[0]: ast.Name(id="self", ctx=ast.Load()), self.contains[1]: n.left}).visit(copy.deepcopy(self.contains[2]))
+            return e if isinstance(n.ops[0], ast.In) else negate(e)
+        return n
+
+    def visit_If(self, n):
+        self.generic_visit(n)
+        n.test = self._truth(n.test)
+        return n
+
+    def visit_While(self, n):
+        self.generic_visit(n)
+        n.test = self._truth(n.test)
+        return n
+
+    def visit_BoolOp(self, n):
+        self.generic_visit(n)
+        n.values = [self._truth(v) for v in n.values]
+        return n
+
+    def visit_UnaryOp(self, n):
+        self.generic_visit(n)
+        if isinstance(n.op, ast.Not):
+            n.operand = self._truth(n.operand)
+        return n
+
+
+def canonical(fn, helpers, sigs=None, cls=None):
     SIGNATURES[0] = sigs or {}
     f = copy.deepcopy(fn)
     strip(f)
+    if cls is not None and f.name not in ("__len__", "__contains__", "__bool__"):
+        _Dunder(cls).visit(f)
+        ast.fix_missing_locations(f)
     rename_comprehension_vars(f)
     _Idioms().visit(f)
     ast.fix_missing_locations(f)
@@ -2106,6 +2347,8 @@ def canonical(fn, helpers, sigs=None):
     split_tuples(f)
     split_self_referential_stores(f)
     expand_comprehensions(f)
+    networkx_bulk_calls(f)
+    split_tuples(f)
     rename_apart(f)
     mapping_loops(f)
     for _ in range(8):
@@ -2116,6 +2359,7 @@ def canonical(fn, helpers, sigs=None):
         e = merge_copies(f)
         if not (a or b or c or d or e):
             break
+    expand_star_tuples(f)
     _Idioms().visit(f)
     control_flow(f)
     sort_commuting(f)
@@ -2250,6 +2494,19 @@ def changed_functions(trees, ref):
     return out
 
 
+def _classes(trees):
+    out = {}
+    for m, t in trees.items():
+        for st in t.body:
+            if isinstance(st, ast.ClassDef):
+                out[(m, st.name)] = st
+    return out
+
+
+def _cls_of(classes, m, q):
+    return classes.get((m, q.split(".")[0])) if "." in q else None
+
+
 def _code_key():
     """Digest of the analysis code that defines the canonical form and of the frozen reference."""
     h = hashlib.sha256()
@@ -2283,9 +2540,9 @@ def _quick_form(fn):
 
 
 def _canon_job(job):
-    node, helpers, sigs = job
+    node, helpers, sigs, cls = job
     try:
-        return canonical(node, helpers, sigs)[0]
+        return canonical(node, helpers, sigs, cls)[0]
     except RecursionError:
         return None
 
@@ -2333,15 +2590,16 @@ def restore_equivalent(trees, tree_digest=None):
         equal = set()
         refd = _reference_digests(key)
         csigs, rsigs = signatures_of(trees), signatures_of(ref)
+        ccls, rcls = _classes(trees), _classes(ref)
         jobs, slots = [], []
         for m, q, container, idx, node, r, hc, hr in changed:
             if _quick_form(node) == _quick_form(r):
                 equal.add((m, q))
                 continue
-            jobs.append((node, hc, csigs))
+            jobs.append((node, hc, csigs, _cls_of(ccls, m, q)))
             slots.append((m, q, "c"))
             if hr or ("%s:%s" % (m, q)) not in refd:
-                jobs.append((r, hr, rsigs))
+                jobs.append((r, hr, rsigs, _cls_of(rcls, m, q)))
                 slots.append((m, q, "r"))
         got = {}
         for slot, d in zip(slots, _digests(jobs)):
@@ -2405,10 +2663,11 @@ def write_digests():
     import json
     ref = load_reference()
     rsigs = signatures_of(ref)
+    rcls = _classes(ref)
     jobs, names = [], []
     for m, t in ref.items():
         for q, _, _, n in _function_slots(t):
-            jobs.append((n, {}, rsigs))
+            jobs.append((n, {}, rsigs, _cls_of(rcls, m, q)))
             names.append("%s:%s" % (m, q))
     ds = _digests(jobs)
     json.dump({"key": _code_key(), "digests": {k: d for k, d in zip(names, ds) if d is not None}}, open(DIGESTS, "w"), indent=0, sort_keys=True)
